@@ -131,7 +131,26 @@ pub fn run(args: &Args) -> i32 {
             ..Default::default()
         };
         let mut tg = TreeGen::new(&gi, cfg.clone(), trng.next_u64());
-        tg.generate();
+        // the builder is a real node: if it refuses a block that the production calculators
+        // built on its own tip, generation stops; its state is still judged (C02) and the
+        // refusal itself is reported (after a truncation the node must behave like any node
+        // that reached that tip)
+        let generated = std::panic::catch_unwind(std::panic::AssertUnwindSafe(|| tg.generate()));
+        let _ = hooks::take_panics();
+        if let Err(e) = generated {
+            let msg = e.downcast_ref::<String>().cloned().or_else(|| e.downcast_ref::<&str>().map(|s| s.to_string())).unwrap_or_default();
+            let before = r.c02.violations_len();
+            check_builder_state(&tg, &mut r);
+            r.c01.count("builder_generation_aborted");
+            if r.c02.violations_len() == before {
+                r.c01.violation(
+                    &format!("builder.refused_block_built_on_its_own_tip:{}", msg.chars().take(60).collect::<String>()),
+                    format!("the builder node (after {} truncations) refused or could not build a block on its own tip: {msg}", tg.stats.get("truncations").cloned().unwrap_or(0)),
+                    json!({"tree": ti, "blocks_so_far": tg.order.len()}),
+                );
+            }
+            continue;
+        }
         r.c01.count("trees");
         for (k, v) in tg.stats.clone() {
             r.c01.count_n(&format!("gen.{k}"), v);
@@ -171,6 +190,14 @@ pub fn run(args: &Args) -> i32 {
         }
     }
     scenario_duplicate_invalid(args, &mut rng, &mut r);
+    {
+        let want = args.tier.pick(2, 12);
+        let mut tries = 0;
+        while r.c01.counter("scenario.light_branch_overtakes_runs") < want && tries < want * 4 {
+            tries += 1;
+            scenario_light_branch_overtakes(&mut rng, &mut r);
+        }
+    }
     let hits = hooks::hits();
     for (k, v) in &hits {
         r.c01.count_n(&format!("hook.{k}"), *v);
@@ -178,6 +205,7 @@ pub fn run(args: &Args) -> i32 {
     r.c01.require("trees", 1);
     r.c01.require("deliveries_runs", 1);
     r.c01.require("obs.reorgs", 1);
+    r.c01.require("scenario.light_branch_overtakes_runs", 1);
     if n_orders > 5 && FIXED_ORDER.with(|f| f.borrow().is_none()) {
         r.c01.require("order.SwitchBack.realised", 1);
     }
@@ -1069,6 +1097,61 @@ fn scenario_duplicate_invalid(args: &Args, rng: &mut Rng, r: &mut Reports) {
         tg.order.pop();
         r.c01.count("scenario.duplicate_invalid_runs");
     }
+}
+
+/// Directed scenario (C01/C02, "uneven difficulty"): two branches leave the short genesis epoch
+/// with very different block intervals, so the difficulty adjustment gives them different
+/// per-block difficulties in epoch 1. The heavy branch A is delivered first; the light branch B
+/// needs several more blocks to overtake, which stay stored and unverified until the block that
+/// makes B the heaviest chain arrives: the new tip is then several blocks HIGHER than the old one
+/// and a whole run of unverified blocks is attached in one reorganisation.
+fn scenario_light_branch_overtakes(rng: &mut Rng, r: &mut Reports) {
+    let mut params = ChainParams::default();
+    let genesis_len = 4 + rng.below(4);
+    params.epoch = EpochMode::Adjusting { genesis_len, duration_target: 80 };
+    let gi = consensus::build(&params);
+    let cfg = TreeCfg { n_blocks: 0, invalid: 0, max_new_txs: 1, uncle_pm: 0, fork_pm: 0, ..Default::default() };
+    let mut tg = TreeGen::new(&gi, cfg, rng.next_u64());
+    let genesis = tg.rc.genesis;
+    // branch A: blocks 1 ms apart -> short epoch 0 -> higher difficulty in epoch 1
+    tg.cfg.ts_step_min = 0;
+    tg.cfg.ts_step_max = 1;
+    let mut a = genesis;
+    for _ in 0..(genesis_len + 2) {
+        a = tg.extend(&a);
+    }
+    // branch B: blocks ~14 s apart -> long epoch 0 -> lower difficulty in epoch 1
+    tg.cfg.ts_step_min = 13_000;
+    tg.cfg.ts_step_max = 14_000;
+    let mut b_blocks: Vec<H> = vec![];
+    let mut b = genesis;
+    let a_td = tg.rc.get(&a).td.clone();
+    for _ in 0..(genesis_len * 8 + 40) {
+        b = tg.extend(&b);
+        b_blocks.push(b);
+        if tg.rc.get(&b).td > a_td {
+            break;
+        }
+    }
+    let (na, nb) = (tg.rc.get(&a).number, tg.rc.get(&b).number);
+    if tg.rc.get(&b).td <= a_td || nb < na + 2 {
+        r.c01.count("scenario.light_branch.not_realised");
+        return;
+    }
+    r.c01.count("scenario.light_branch_overtakes_runs");
+    r.c01.count_n("scenario.light_branch.height_gap", nb - na);
+    // order: A completely, then B completely (its last block is the one that overtakes)
+    let mut order: Vec<H> = tg.rc.path(&a).into_iter().skip(1).collect();
+    order.extend(b_blocks.iter().cloned());
+    // and one more block on B afterwards (its parent's record must be the right one)
+    tg.cfg.ts_step_min = 0;
+    tg.cfg.ts_step_max = 1000;
+    let b_next = tg.extend(&b);
+    order.push(b_next);
+    let shape = model::tree_shape(&tg.rc, &tg.order);
+    FIXED_ORDER.with(|f| *f.borrow_mut() = Some(order));
+    deliver_and_check(&tg, &gi, &OrderKind::InOrder, 1, 1, false, rng, shape, r);
+    FIXED_ORDER.with(|f| *f.borrow_mut() = None);
 }
 
 fn deliver_fixed(tg: &TreeGen, gi: &GenesisInfo, order: Vec<H>, rng: &mut Rng, shape: u64, r: &mut Reports) {
